@@ -380,7 +380,58 @@ def c04_post(pid, tier, results):
     if missing:
         notes.append("C04: safe public functions of /repo/src that the sweep does not call: " + ", ".join(missing))
     results[0].setdefault("counters", {})["public_functions_cross_checked"] = len(names)
-    return [], notes
+    viol = []
+    if tier == "thorough":
+        v, n = miri_sweep(pid, results)
+        viol += v
+        notes += n
+    return viol, notes
+
+
+def miri_sweep(pid, results, parts=14):
+    """Thorough tier of C04: the miniature sweep (mc/src/bin/mini.rs) interpreted by Miri, cut into `parts`
+    processes. Miri is a monitor here, like ASan: the inputs are the enumerated ones; it reports undefined
+    behaviour that neither a panic nor a signal would show (uninitialised reads, invalid pointer use)."""
+    import os, re, subprocess, concurrent.futures
+    mc = os.path.join(os.path.dirname(os.path.dirname(os.path.abspath(__file__))), "mc")
+    scratch = os.environ.get("QWT_SCRATCH")
+    cmd = ["cargo", "+nightly", "miri", "run", "--target-dir", os.path.join(scratch or mc, "target-miri"), "--bin", "mini"]
+    if os.environ.get("QWT_REPO"):
+        cmd += ["--config", 'paths=["%s"]' % os.environ["QWT_REPO"]]
+    # +popcnt: DArray::select calls _popcnt64 unconditionally (the crate assumes an x86-64 CPU with POPCNT, as every
+    # other build of this harness does by running on one); Miri's default target CPU lacks it.
+    env = dict(os.environ, CARGO_NET_OFFLINE="true", CARGO_TERM_COLOR="never",
+               RUSTFLAGS="--cfg qwt_verif -C target-feature=+popcnt",
+               MIRIFLAGS="-Zmiri-disable-isolation -Zmiri-ignore-leaks")
+
+    def run(k):
+        return subprocess.run(cmd + ["--", str(k), str(parts)], cwd=mc, env=env, stdout=subprocess.PIPE, stderr=subprocess.PIPE,
+                              text=True, timeout=3000)
+    try:
+        first = run(0)  # builds; the other parts then start from the finished build
+        with concurrent.futures.ThreadPoolExecutor(max_workers=parts) as ex:
+            rest = list(ex.map(run, range(1, parts)))
+    except subprocess.TimeoutExpired:
+        return [], ["C04: the Miri sweep hit its wall cap"]
+    viol, notes, calls = [], [], 0
+    for k, p in enumerate([first] + rest):
+        m = re.search(r"mini: part \d+/\d+: \d+ of \d+ units, (\d+) calls", p.stdout)
+        if p.returncode == 0 and m:
+            calls += int(m.group(1))
+            continue
+        err = p.stderr
+        ub = re.search(r"error: Undefined Behavior: ([^\n]*)", err)
+        if ub:
+            where = re.search(r"-->\s*(\S+)", err[ub.start():])
+            viol.append({"property": pid, "ty": "all types (Miri)", "method": "safe API", "class": "miri",
+                         "query": f"cargo +nightly miri run --bin mini -- {k} {parts}",
+                         "expected": "no undefined behaviour", "observed": "ABORT: Miri: " + ub.group(1)[:200] + (" at " + where.group(1) if where else ""),
+                         "case_index": k, "case": {"bin": "mini", "part": k, "of": parts}, "profile": "miri", "no_replay": True})
+        else:
+            notes.append(f"C04: Miri part {k} did not finish (exit {p.returncode}): " + err[-400:].replace("\n", " | "))
+    results[0].setdefault("counters", {})["miri_interpreted_calls"] = calls
+    results[0]["counters"]["miri_parts"] = parts
+    return viol, notes
 
 
 PROPS["C04"] = {
@@ -402,7 +453,8 @@ PROPS["C04"] = {
         "one (type, state); all are non-trivial.",
         TRUST + ["the allow-list of documented panics is matched on (method, documented condition true for the arguments)"],
         "both build profiles in both tiers (fast = optimized, chk = debug assertions + overflow checks); thorough adds an "
-        "AddressSanitizer build of the same sweep. Lengths >= 2^43 and real memory exhaustion are not provoked.",
+        "AddressSanitizer build of the same sweep and a Miri interpretation of a miniature of it (mc/src/bin/mini.rs: sizes <= 4097 bits / "
+        "300 symbols, 46k calls in 14 processes; counters miri_*). Lengths >= 2^43 and real memory exhaustion are not provoked.",
         level="fault_enumeration"),
     "vacuity": need(["documented_panics_observed", "hostile_calls_allocation_failure_abort", "public_functions_cross_checked"], answers=False),
 }
